@@ -285,6 +285,27 @@ static void worker (long start, void *user)
       on_prog (&p, &start);
     }
   }
+  /* LM: the maximum number of variables of every class, each one used by name: 4 destinations, 4 accumulators, 8
+   * sources, 16 temporaries, 8 constants (second program: 8 parameters).  Every temporary is written once and read
+   * once, so that the compiler's own temporaries suffice. */
+  {
+    int k, v;
+    for (v = 0; v < 2; v++) {
+      VProg p;
+      int d[4], s[8], t[16], c[8], a[4];
+      memset (&p, 0, sizeof (p));
+      for (k = 0; k < 4; k++) d[k] = vprog_addvar (&p, VK_D, 2);
+      for (k = 0; k < 4; k++) a[k] = vprog_addvar (&p, VK_A, 2);
+      for (k = 0; k < 8; k++) s[k] = vprog_addvar (&p, VK_S, 2);
+      for (k = 0; k < 16; k++) t[k] = vprog_addvar (&p, VK_T, 2);
+      for (k = 0; k < 8; k++) { c[k] = vprog_addvar (&p, v ? VK_P : VK_C, 2); p.v[c[k]].cval = 100 + k; }
+      for (k = 0; k < 16; k++) vprog_addinsn (&p, "addw", 0, 3, t[k], s[k % 8], c[k % 8], -1);
+      for (k = 0; k < 12; k++) vprog_addinsn (&p, "accw", 0, 2, a[k % 4], t[k], -1, -1);
+      for (k = 0; k < 4; k++) vprog_addinsn (&p, "copyw", 0, 2, d[k], t[12 + k], -1, -1);
+      snprintf (p.name, sizeof (p.name), "vLM_%d", v);
+      on_prog (&p, &start);
+    }
+  }
   if (strstr (g_levels, "L1")) pgen_L1 (on_prog, &start, PG_INT | PG_FLOAT);
   if (strstr (g_levels, "L2")) pgen_L2 (on_prog, &start, PG_INT | PG_FLOAT);
   if (strstr (g_levels, "L3")) { pgen_L3 (on_prog, &start, PG_INT); pgen_L3 (on_prog, &start, PG_FLOAT); }
